@@ -130,8 +130,11 @@ def ref_paranoia_filter(full):
     return out
 
 
-def secrets_of(full):
-    """Secret strings and private scalars of an UNFILTERED wallet dict."""
+def secrets_of(full, words_index=None):
+    """Secret strings and private scalars of an UNFILTERED wallet dict, plus re-encodings from which a
+    secret is recovered at once (seed / entropy hex, scalars as decimal or base64)."""
+    import base64
+    import unicodedata
     strings = {}
     scalars = set()
     ms = full.get("MASTER", {})
@@ -161,6 +164,22 @@ def secrets_of(full):
                 scalars.add(pl[1:33].hex())
             elif len(pl) == 78 and pl[45] == 0:
                 scalars.add(pl[46:78].hex())
+    mn = ms.get("mnemonic")
+    if mn:
+        try:
+            m_ = unicodedata.normalize("NFKD", mn).encode()
+            s_ = ("mnemonic" + unicodedata.normalize("NFKD", ms.get("password") or "")).encode()
+            strings["derived:bip39-seed-hex"] = hashlib.pbkdf2_hmac("sha512", m_, s_, 2048).hex()
+        except Exception:
+            pass
+        if words_index is not None:
+            try:
+                strings["derived:entropy-hex"] = entropy_from_mnemonic(mn, words_index).hex()
+            except Exception:
+                pass
+    for i, h in enumerate(sorted(scalars)):
+        strings["derived:scalar-decimal:%d" % i] = str(int(h, 16))
+        strings["derived:scalar-base64:%d" % i] = base64.b64encode(bytes.fromhex(h)).decode()
     return strings, scalars
 
 
@@ -175,8 +194,9 @@ def scan_for_secrets(text, strings, scalars, words_set):
         pass
     for name, s in sorted(strings.items()):
         esc = json.dumps(s)[1:-1]
+        low = name.startswith("derived:") and "hex" in name
         for where, t in forms:
-            if s in t or esc in t:
+            if s in t or esc in t or (low and s in t.lower()):
                 hits.append(("secret-string", "%s in %s" % (name.split(":")[0], where.split("/")[0])))
                 break
     for where, t in forms[:1] + [f for f in forms[1:]]:
